@@ -237,7 +237,15 @@ func TestC23(t *testing.T) {
 		others := []gen{{"C07", c07Gen}, {"C08", c08Gen}, {"C09", c09Gen}, {"C10", c10Gen}, {"C11", c11Gen}, {"C12", c12Gen}, {"C13", c13Gen}, {"C14", c14Gen},
 			{"C15", c15Gen}, {"C16", c16Gen}, {"C17", c17Gen}, {"C19", c19Gen}, {"C24-outbound", c24GenOutbound}, {"C24-inbound", c24GenInbound},
 			{"C25", c25Gen}, {"C34", c34Gen}, {"C38", c38Gen}, {"C40", c40Gen}}
-		if k := rapid.IntRange(0, 2*len(others)-1).Draw(rt, "generator"); k < len(others) {
+		// (built from fair coin flips: rapid's integer generators favour small values, which would starve the later entries)
+		k := 0
+		for i := 0; i < 6; i++ {
+			k = k * 2
+			if rapid.Bool().Draw(rt, "generator-bit") {
+				k++
+			}
+		}
+		if k = k % (2 * len(others)); k < len(others) {
 			c = others[k].f(rt)
 			r.Label("generator/" + others[k].name)
 		} else {
